@@ -445,6 +445,9 @@ func (matrix *SparseFloat32Matrix) PermuteRows(pi []int) error {
   if n != m {
     return fmt.Errorf("SymmetricPermutation(): matrix is not a square matrix")
   }
+  if len(pi) != n {
+    return fmt.Errorf("PermuteRows(): permutation has length %d, matrix has dimension %d", len(pi), n)
+  }
   // permute matrix
   for i := 0; i < n; i++ {
     if pi[i] < 0 || pi[i] > n {
@@ -461,6 +464,9 @@ func (matrix *SparseFloat32Matrix) PermuteColumns(pi []int) error {
   if n != m {
     return fmt.Errorf("SymmetricPermutation(): matrix is not a square matrix")
   }
+  if len(pi) != n {
+    return fmt.Errorf("PermuteColumns(): permutation has length %d, matrix has dimension %d", len(pi), n)
+  }
   // permute matrix
   for i := 0; i < m; i++ {
     if pi[i] < 0 || pi[i] > n {
@@ -476,6 +482,9 @@ func (matrix *SparseFloat32Matrix) SymmetricPermutation(pi []int) error {
   n, m := matrix.Dims()
   if n != m {
     return fmt.Errorf("SymmetricPermutation(): matrix is not a square matrix")
+  }
+  if len(pi) != n {
+    return fmt.Errorf("SymmetricPermutation(): permutation has length %d, matrix has dimension %d", len(pi), n)
   }
   for i := 0; i < n; i++ {
     if pi[i] < 0 || pi[i] > n {
